@@ -3,7 +3,11 @@ package main
 import (
 	"fmt"
 	"net/http"
+	"net/http/httptest"
 	"net/url"
+
+	"github.com/vicanso/elton"
+	"github.com/vicanso/pike/config"
 
 	"github.com/vicanso/pike/cache"
 	"github.com/vicanso/pike/server"
@@ -129,7 +133,67 @@ func runKeys(seed uint64, n int, tier string, out string, replay string) {
 		sum.Count(fmt.Sprintf("disp-size-%d", size/8*8))
 		sum.Sample(map[string]interface{}{"first_requests": rep[:2], "dispatcher_size": size, "entries_created": len(ids)})
 	}
+	// end to end through the cache middleware: many same-length keys, each
+	// requested twice; every reply must be the one produced for its own key
+	crossServed := manyKeysThroughMiddleware(8000+n*20, sum)
+	if crossServed != nil {
+		sum.ImplViolations = append(sum.ImplViolations, crossServed)
+	}
 	w.Flush()
 	sum.DistinctNontrivial = distinct.Len()
 	sum.Write(out)
+}
+
+func manyKeysThroughMiddleware(nkeys int, sum *hx.Summary) map[string]interface{} {
+	const name = "manykeys"
+	cache.ResetDispatchers([]config.CacheConfig{{Name: name, Size: 51200, HitForPass: "5m"}})
+	defer cache.ResetDispatchers(nil)
+	s := server.NewServer(server.ServerOption{Cache: name})
+	handler := server.NewCache(s)
+	wrong := 0
+	var first string
+	hits := 0
+	for pass := 0; pass < 2; pass++ {
+		for k := 0; k < nkeys; k++ {
+			method := "GET"
+			if k%5 == 0 {
+				method = "HEAD"
+			}
+			host := []string{"aa.example", "bb.example"}[k%2]
+			uri := fmt.Sprintf("/many/%06d?v=%d", k/2, k%3)
+			req := httptest.NewRequest(method, "http://"+host+uri, nil)
+			c := elton.NewContext(httptest.NewRecorder(), req)
+			want := method + " " + host + " " + uri
+			c.Next = func() error {
+				h := http.Header{}
+				h.Set("X-Made-For", want)
+				server.VerifSetHTTPResp(c, &cache.HTTPResponse{StatusCode: 200, Header: h, RawBody: []byte(want)})
+				server.VerifSetHTTPCacheMaxAge(c, 300)
+				return nil
+			}
+			if err := handler(c); err != nil {
+				continue
+			}
+			resp := server.VerifGetHTTPResp(c)
+			if server.VerifGetCacheStatus(c) == cache.StatusHit {
+				hits++
+			}
+			if resp == nil || resp.Header.Get("X-Made-For") != want {
+				wrong++
+				if first == "" {
+					got := "<nil>"
+					if resp != nil {
+						got = resp.Header.Get("X-Made-For")
+					}
+					first = fmt.Sprintf("request %q was answered with the response made for %q (pass %d)", want, got, pass)
+				}
+			}
+		}
+	}
+	sum.Distribution["middleware_requests"] = 2 * nkeys
+	sum.Distribution["middleware_hits"] = hits
+	if wrong > 0 {
+		return map[string]interface{}{"property": "C06", "kind": "cross-served", "count": wrong, "first": first, "keys": nkeys, "same_key": "cross-served through the cache middleware"}
+	}
+	return nil
 }
